@@ -1049,7 +1049,8 @@ func (x *Unit) applyContract(st *State, b *Block, pc *preparedCall, recvName str
 	}
 	for i, cl := range b.ClausesOf("requires") {
 		g := x.specEval(pre, cl.Expr, c)
-		x.oblige(st, "requires", b.Key+":"+clauseLabel(cl, i), g.T, pc.call)
+		ro := x.oblige(st, "requires", b.Key+":"+clauseLabel(cl, i), g.T, pc.call)
+		ro.LibPre = b.Kind == "ext" // a violated precondition of a library function is a panic (Intn(0), ...)
 	}
 	// panics
 	mp := b.ClausesOf("may_panic")
